@@ -538,6 +538,41 @@ macro_rules! ecdsa_degenerate_key {
     }};
 }
 
+/// The signer-adversary who knows the private key d and picks r = +/- h/d: then (h/s)*G = +/- (r/s)*Q, so the
+/// final addition of the verification equation adds two equal points (or opposite ones). s is arbitrary.
+macro_rules! ecdsa_equal_terms_sig {
+    ($m:ident, $hv:expr, $sk_be:expr, $neg:expr, $s_le:expr) => {{
+        use crrl::$m::Scalar;
+        let mut tmp = [0u8; 32];
+        let hv: &[u8] = $hv;
+        if hv.len() >= 32 {
+            tmp.copy_from_slice(&hv[..32]);
+        } else {
+            tmp[32 - hv.len()..].copy_from_slice(hv);
+        }
+        tmp.reverse();
+        let h = Scalar::decode_reduce(&tmp);
+        let mut db: Vec<u8> = $sk_be.to_vec();
+        db.reverse();
+        let d = Scalar::decode_reduce(&db);
+        if d.iszero() != 0 || h.iszero() != 0 {
+            None
+        } else {
+            let mut r = h / d;
+            if $neg {
+                r = -r;
+            }
+            let s = Scalar::decode_reduce($s_le);
+            let mut rb = r.encode().to_vec();
+            rb.reverse();
+            let mut sb = s.encode().to_vec();
+            sb.reverse();
+            rb.extend_from_slice(&sb);
+            Some(rb)
+        }
+    }};
+}
+
 fn ex_p256(n: &mut Net, out: &mut RunOut, tier: Tier) {
     use crrl::p256::{PrivateKey, PublicKey};
     let seed = { let l = 16 + n.t.usize(40); n.rng.bytes(l) };
@@ -579,6 +614,15 @@ fn ex_p256(n: &mut Net, out: &mut RunOut, tier: Tier) {
         out.ev(format_args!(" verify_trunc rm={} -> {:?}", rm, r.map(|x| x.map(|s| hex(&s)))));
         yesno(out, "p256trunc", matches!(r, Some(Some(_))));
         out.probe("probe.exchange.truncated_verification");
+    }
+    if n.t.chance(1, 8) {
+        let sb = n.rng.bytes(40);
+        let neg = n.t.chance(1, 2);
+        if let Some(es) = ecdsa_equal_terms_sig!(p256, &hv, &sk.encode(), neg, &sb) {
+            out.probe("probe.exchange.ecdsa_signature_crafted_for_equal_terms");
+            let v = g!(out, "call.p256.verify_hash", format!("{} {}", hex(&es), hex(&hv)), pk.verify_hash(&es, &hv));
+            out.ev(format_args!(" equal-terms signature {} verify -> {:?}", hex(&es), v));
+        }
     }
     if n.t.chance(1, 6) && sig.len() == 64 {
         // key chosen by the adversary for this (r, hash): degenerate verification equation, plain and truncated
@@ -677,6 +721,15 @@ fn ex_secp256k1(n: &mut Net, out: &mut RunOut) {
     let v = g!(out, "call.secp256k1.verify_hash", format!("{} {}", hex(&sig2), hex(&hv2)), pkd.verify_hash(&sig2, &hv2));
     out.ev(format_args!(" verify -> {:?}", v));
     yesno(out, "secp256k1", v == Some(true));
+    if n.t.chance(1, 8) {
+        let sb = n.rng.bytes(40);
+        let neg = n.t.chance(1, 2);
+        if let Some(es) = ecdsa_equal_terms_sig!(secp256k1, &hv, &sk.encode(), neg, &sb) {
+            out.probe("probe.exchange.ecdsa_signature_crafted_for_equal_terms");
+            let v = g!(out, "call.secp256k1.verify_hash", format!("{} {}", hex(&es), hex(&hv)), pk.verify_hash(&es, &hv));
+            out.ev(format_args!(" equal-terms signature {} verify -> {:?}", hex(&es), v));
+        }
+    }
     if n.t.chance(1, 6) && sig.len() == 64 {
         if let Some(qk) = ecdsa_degenerate_key!(secp256k1, &hv2, &sig[..32]) {
             out.probe("probe.exchange.ecdsa_key_crafted_for_degenerate_equation");
